@@ -117,6 +117,60 @@ pub fn run(ctx: &mut Ctx) {
             let _ = trap::guard(|| Envelope::try_from_cbor_data(bad).is_ok());
         }
         roundtrip(ctx, &e, "plain", Some(&mb));
+        // conversion BY VALUE of an envelope nobody else holds (freshly decoded, reference count one), bare, wrapped,
+        // compressed and inside a Vec: the same CBOR as the by-reference conversions
+        if case % 4 == 1 {
+            ctx.eval();
+            ctx.count("by_value_conversions_of_sole_owner");
+            let forms: Vec<Vec<u8>> = vec![env_bytes(&e), env_bytes(&e.wrap_envelope()), e.compress().map(|c| env_bytes(&c)).unwrap_or_else(|_| env_bytes(&e)), env_bytes(&e.elide())];
+            for fb in forms {
+                let r = trap::guard(|| {
+                    let fresh = Envelope::try_from_cbor_data(fb.clone())?;
+                    let by_value: dcbor::CBOR = fresh.into();
+                    let fresh2 = Envelope::try_from_cbor_data(fb.clone())?;
+                    let in_vec: dcbor::CBOR = vec![fresh2].into();
+                    let fresh3 = Envelope::try_from_cbor_data(fb.clone())?;
+                    let by_from = dcbor::CBOR::from(fresh3);
+                    Ok::<_, anyhow::Error>((by_value.to_cbor_data(), in_vec.to_cbor_data(), by_from.to_cbor_data()))
+                });
+                match r {
+                    Ok(Ok((a, v, c))) => {
+                        let mut want_vec = vec![0x81u8];
+                        want_vec.extend_from_slice(&fb);
+                        if a != fb || c != fb || v != want_vec {
+                            ctx.violation("by-value-conversion-differs", "converting a uniquely owned envelope into CBOR by value gives other bytes than its encoding", J::s(hex::encode(&fb[..fb.len().min(200)])));
+                        }
+                    }
+                    Ok(Err(err)) => ctx.violation("from-cbor/err", &format!("{}", err), J::s(hex::encode(&fb[..fb.len().min(200)]))),
+                    Err(p) => ctx.violation(&format!("by-value-conversion/panic/{}", p.signature()), &format!("{:?}", p), J::Null),
+                }
+            }
+        }
+        // placeholders with foreign digests that are simple functions of a present element's digest (leading half
+        // equal, words permuted, one bit apart ...), attached in either order: still one canonical encoding
+        if case % 6 == 2 {
+            let d = *rng.pick(&t.all_digests());
+            for (label, rd) in crate::adv::related_digests(&d) {
+                ctx.eval();
+                ctx.count("related_digest_placeholders");
+                let a = gen::elided_with_digest(&rd);
+                let b = gen::elided_with_digest(&d);
+                let base = Envelope::new(format!("holder-{}", case));
+                let r = trap::guard(|| (base.add_assertion_envelope(a.clone()).and_then(|x| x.add_assertion_envelope(b.clone())), base.add_assertion_envelope(b.clone()).and_then(|x| x.add_assertion_envelope(a.clone())), e.add_assertion_envelope(a.clone())));
+                match r {
+                    Ok((Ok(x), Ok(y), Ok(z))) => {
+                        if env_bytes(&x) != env_bytes(&y) {
+                            ctx.violation(&format!("related-digests/order-dependent/{}", label), "two placeholders with related digests give different envelopes depending on the order they were attached in", jhex(&x));
+                        }
+                        roundtrip(ctx, &x, "related-digest-placeholders", None);
+                        roundtrip(ctx, &y, "related-digest-placeholders", None);
+                        roundtrip(ctx, &z, "related-digest-placeholder-on-envelope", None);
+                    }
+                    Ok(_) => ctx.violation(&format!("related-digests/add-err/{}", label), "a placeholder with a foreign digest was refused as an assertion element", J::Null),
+                    Err(p) => ctx.violation(&format!("related-digests/panic/{}", p.signature()), &format!("{:?}", p), J::Null),
+                }
+            }
+        }
         // legal but deeply nested envelopes (wrap + assertion chains) must round-trip as well
         if case % 400 == 0 {
             let depth = rng.range(40, 200);
